@@ -1265,6 +1265,186 @@ def r_narrow(E):
     return res
 
 
+@rule("R-MEMBER")
+def r_member(E):
+    pm = E.pm
+    res = RuleResult("R-MEMBER", "what a system counts is what its usage_patterns list holds: a collection of usage patterns "
+                                 "that update rules aggregate over is not the raw set of back links (modeling_obj_containers) "
+                                 "of a shared object — a pattern taken out of the list, or built and never added, still "
+                                 "points to its journey / network and would keep being counted")
+    from ..astutil import fully_expanded as _fx
+    members = set()
+    for a, ai in pm.link_attrs("System").items():
+        members |= set(ai.targets)
+    linked_from = {}          # class D -> member classes M that hold a link to D
+    for M in sorted(members):
+        for k in [M] + pm.subclasses(M):
+            for a, ai in pm.link_attrs(k).items():
+                for D in ai.targets:
+                    for d2 in [D] + pm.subclasses(D):
+                        linked_from.setdefault(d2, set()).add(M)
+    holders = {}               # class X -> classes that hold a link to X (what X.modeling_obj_containers contains)
+    for k in pm.classes:
+        if not pm.is_model(k):
+            continue
+        for a, ai in pm.link_attrs(k).items():
+            for D in ai.targets:
+                for d2 in [D] + pm.subclasses(D):
+                    holders.setdefault(d2, set()).add(k)
+
+    def methods_of(cn):
+        out = {}
+        for c in reversed(pm.mro(cn)):
+            if c in pm.classes:
+                for f in pm.own_methods(c):
+                    out[f.name] = f
+        return out
+
+    def raw_backlinks(f):
+        rets = [r.value for r in ast.walk(f) if isinstance(r, ast.Return) and r.value is not None]
+        return bool(rets) and all(norm(_fx(r, f)) == "self.modeling_obj_containers" for r in rets)
+
+    def elem_classes(cn, q):
+        """classes of the elements of self.<q> in class cn: a link attribute, or a property that returns the back links"""
+        ai = pm.init_attrs(cn).get(q)
+        if ai is not None and ai.kind == "link":
+            out = set()
+            for t in ai.targets:
+                out |= {t} | set(pm.subclasses(t))
+            return out
+        f = methods_of(cn).get(q)
+        if f is not None and is_property(f) and raw_backlinks(f):
+            out = set()
+            for h in holders.get(cn, ()):
+                out |= {h} | set(pm.subclasses(h))
+            return out
+        return set()
+
+    # (class, property / method) pairs whose value reaches an update rule
+    consumed, frontier = set(), []
+    for cn in sorted(pm.classes):
+        if not pm.is_model(cn) or cn == "System":
+            continue
+        for name, f in methods_of(cn).items():
+            if name.startswith("update_"):
+                frontier.append((cn, f))
+    seen_f = set()
+    while frontier:
+        cn, f = frontier.pop()
+        if (cn, f.name) in seen_f:
+            continue
+        seen_f.add((cn, f.name))
+        ms = methods_of(cn)
+        # loop / comprehension variables typed by what they iterate over
+        var_cls = {}
+        for n in ast.walk(f):
+            if isinstance(n, (ast.For, ast.comprehension)) and isinstance(n.target, ast.Name) \
+                    and isinstance(n.iter, ast.Attribute) and norm(n.iter.value) == "self":
+                var_cls.setdefault(n.target.id, set()).update(elem_classes(cn, n.iter.attr))
+        for n in ast.walk(f):
+            if not isinstance(n, ast.Attribute):
+                continue
+            if isinstance(n.value, ast.Name):
+                owners = {cn} if n.value.id == "self" else var_cls.get(n.value.id, set())
+            elif isinstance(n.value, ast.Attribute) and isinstance(n.value.value, ast.Name):
+                # self.<link>.<p> / <typed variable>.<link>.<p>
+                inner = {cn} if n.value.value.id == "self" else var_cls.get(n.value.value.id, set())
+                owners = set()
+                for o in inner:
+                    owners |= elem_classes(o, n.value.attr) if o in pm.classes else set()
+            else:
+                continue
+            for o in owners:
+                g = methods_of(o).get(n.attr) if o in pm.classes else None
+                if g is not None and not n.attr.startswith("update_"):
+                    consumed.add((o, n.attr))
+                    frontier.append((o, g))
+    for D in sorted(linked_from):
+        for name, f in sorted(methods_of(D).items()):
+            if not (is_property(f) and raw_backlinks(f)):
+                continue
+            res.instances += 1
+            if (D, name) not in consumed:
+                if len(res.samples) < 6:
+                    res.samples.append({"property": f"{D}.{name}", "verdict": "raw back links, but no update rule aggregates over it"})
+                continue
+            owner = next((c for c in pm.mro(D) if c in pm.classes and any(m is f for m in pm.own_methods(c))), D)
+            key = f"{owner}.{name} hands the raw back links to update rules"
+            if any(x.key == key for x in res.findings):
+                continue
+            res.findings.append(Finding(
+                "R-MEMBER", key,
+                f"{owner}.{name} returns self.modeling_obj_containers — every {'/'.join(sorted(linked_from[D]))} that points to this "
+                f"object, in the system's list or not — and update rules aggregate over it: after "
+                f"`system.usage_patterns.remove(up)` (or `= [others]`) the removed pattern still points to its journey and "
+                f"network, so jobs, servers and the network keep its traffic; removing what was just appended does not "
+                f"restore the previous footprints", pm.classes[owner].path, f.lineno, f"{owner}.{name}"))
+    res.floor = 2
+    return res
+
+
+@rule("R-SPREAD")
+def r_spread(E):
+    pm = E.pm
+    res = RuleResult("R-SPREAD", "a volume spread over a selection of hours / days is divided by the number of *distinct* "
+                                 "members when the values are placed by membership (`hour in hours`): dividing by len(list) "
+                                 "counts an hour listed twice twice and places it once, so the day carries less than the "
+                                 "requested volume")
+    rel, tree = pm.raw_module_tree(TB)
+    fns = {f.name: f for f in tree.body if isinstance(f, ast.FunctionDef)}
+
+    def membership_params(fn, seen=()):
+        """parameters of fn that end up on the right of an `in` test, here or in a builder they are handed to"""
+        ps = [a.arg for a in fn.args.args]
+        out = set()
+        for n in ast.walk(fn):
+            if isinstance(n, ast.Compare) and any(isinstance(o, (ast.In, ast.NotIn)) for o in n.ops):
+                for c in n.comparators:
+                    if isinstance(c, ast.Name) and c.id in ps:
+                        out.add(c.id)
+            if isinstance(n, ast.Call) and isinstance(n.func, ast.Name) and n.func.id in fns and n.func.id not in seen \
+                    and n.func.id != fn.name:
+                callee = fns[n.func.id]
+                cps = [a.arg for a in callee.args.args]
+                inner = membership_params(callee, seen + (fn.name,))
+                given = {cps[i]: a for i, a in enumerate(n.args) if i < len(cps)}
+                given.update({k.arg: k.value for k in n.keywords if k.arg})
+                for cp, a in given.items():
+                    if cp in inner and isinstance(a, ast.Name) and a.id in ps:
+                        out.add(a.id)
+        return out
+
+    for name, fn in sorted(fns.items()):
+        mp = membership_params(fn)
+        for n in ast.walk(fn):
+            if not (isinstance(n, ast.BinOp) and isinstance(n.op, (ast.Div, ast.FloorDiv))):
+                continue
+            r = n.right
+            if not (isinstance(r, ast.Call) and isinstance(r.func, ast.Name) and r.func.id == "len" and r.args):
+                continue
+            a = r.args[0]
+            if not (isinstance(a, ast.Name) and a.id in mp):
+                if isinstance(a, ast.Call) and norm(a.func) in ("set", "frozenset", "dict.fromkeys") and a.args \
+                        and isinstance(a.args[0], ast.Name) and a.args[0].id in mp:
+                    res.instances += 1
+                    if len(res.samples) < 3:
+                        res.samples.append({"function": name, "divisor": norm(r), "verdict": "counts distinct members"})
+                continue
+            res.instances += 1
+            # the parameter deduplicated before the division counts as distinct too
+            dedup = any(isinstance(x, ast.Assign) and any(isinstance(t, ast.Name) and t.id == a.id for t in x.targets)
+                        and x.lineno < n.lineno and any(isinstance(c, ast.Call) and norm(c.func) in ("set", "frozenset", "dict.fromkeys")
+                                                        for c in ast.walk(x.value)) for x in ast.walk(fn))
+            if not dedup:
+                res.findings.append(Finding(
+                    "R-SPREAD", f"{name} divides by len({a.id})",
+                    f"{name} computes `{norm(n)[:60]}` and the values are then placed where `<hour> in {a.id}`: with a "
+                    f"repeated element ({a.id}=[8, 8, 20]) the divisor is 3 and two hours receive a share, so each full day "
+                    f"sums to 2/3 of the requested volume", rel, n.lineno, name))
+    res.floor = 1
+    return res
+
+
 @rule("R-THREAD")
 def r_thread(E):
     pm = E.pm
